@@ -2,7 +2,7 @@
    The extracted OCaml driver and the in-Coq replays both call only this. *)
 From Coq Require Import List ZArith NArith Bool.
 From AG Require Import Base.Val Base.Sort Str.MetaVar Str.AnB Str.Substring
-  Rewrite.Indent Rewrite.Template Tree.Tree Tree.Wf Match.MatchNode Match.Prefilter Rule.Rule Rule.Kinds Rule.Traversal Rule.Scan Rule.Eval Rule.Sem Rewrite.Splice Rewrite.EditDoc Front.JsonPrint Front.Lsp Front.Select Front.Load Str.Case Front.Apply.
+  Rewrite.Indent Rewrite.Template Tree.Tree Tree.Wf Match.MatchNode Match.Prefilter Rule.Rule Rule.Kinds Rule.Traversal Rule.Scan Rule.ScanView Rule.Eval Rule.Sem Rewrite.Splice Rewrite.EditDoc Front.JsonPrint Front.Lsp Front.Select Front.Load Str.Case Front.Apply.
 Import ListNotations.
 Local Open Scope Z_scope.
 
@@ -198,6 +198,21 @@ Definition case_scan (v : val) : val :=
                                 end) ids);
        VL (map vN (res_unused res)) ].
 
+(* 53: same input as 36, the view with separate_fix = true ->
+   (((rule id) (node ids)) ... matches sorted by rule, ((rule id) node id) ... diffs in delivery order) *)
+Definition case_scan_view (v : val) : val :=
+  let src := gS (gNth 0 v) in
+  let root := g_tree (vdepth v) (gNth 1 v) in
+  let rules := gList (fun r => {| sr_id := gS (gNth 0 r); sr_fix := gB (gNth 1 r);
+                                  sr_kinds := gOpt (gList gN) (gNth 2 r); sr_hits := gList gN (gNth 3 r) |}) (gNth 2 v) in
+  let vw := into_view root rules true (scan src root rules) in
+  let ids := sort_dedup (map sr_id rules) in
+  VL [ VL (flat_map (fun rid => match found_of rid (v_matches vw) with
+                                | [] => []
+                                | l => [VL [VS rid; VL (map vN l)]]
+                                end) ids);
+       VL (map (fun p => VL [VS (fst p); vN (snd p)]) (v_diffs vw)) ].
+
 (* 48: rule-document acceptance.  doc = (core (opt ((id core) ...)) ((global-id (opt kinds)) ...));
    core = (rule ((name rule) ...) ((var rule) ...) (opt ((key source (rewriter ids)) ...)) (opt (template ((rule stop) ...))))
    -> (0) accepted | (1 kind) | (1 10 kind-inside-the-rewriter) *)
@@ -320,6 +335,7 @@ Definition run_case (fid : Z) (v : val) : val :=
   | 34 => case_wf v
   | 35 => case_kinds v
   | 36 => case_scan v
+  | 53 => case_scan_view v
   | 48 => case_load v
   | 49 => case_topo v
   | 50 => case_globals v
